@@ -129,6 +129,10 @@ def handle (st : DState) (line : String) : DState × String :=
        | .ok r => (st, s!"valid routines={r.routines} rel={r.relSize} slots={r.bindings} spilled={r.spilledCalls}")
        | .error e => (st, "invalid " ++ (e.replace "\n" " ")))
     | _, _, _ => (st, "perr unknown id")
+  | ["fragmentr", pid, ver, fp] =>
+    match lookup st.progs pid, Util.parseNat ver with
+    | some sp, some v => (st, Cmd.C02Gen.answer sp v (fp == "1"))
+    | _, _ => (st, "perr unknown id")
   | ["genclass", pid, ver] =>
     match lookup st.progs pid, Util.parseNat ver with
     | some sp, some v =>
